@@ -1,5 +1,6 @@
 """C15  Peer failure at any point is reported, never fatal."""
 import itertools
+from props import c03
 
 ID = "C15"
 SRC = ["scen/peerfail.cpp", "vos/vos.cpp"]
@@ -7,6 +8,10 @@ HARNESSES = {
     "plain": dict(name="peerfail", sources=SRC, flavour="asan", mode="C15", timeout=40),
     "tls": dict(name="peerfail", sources=SRC, flavour="tls", mode="C15", libs=["-lssl", "-lcrypto"], timeout=40),
     "default": dict(name="peerfail", sources=SRC, flavour="asan", mode="C15", timeout=40),
+    # peers failing around an ASYNCHRONOUS ACCEPTOR (between connect and accept, right after accept), with a connect handler
+    # that upgrades the connection to a SocketTcpAsync and does NOT catch what that constructor throws (getpeername on a
+    # connection the peer already reset): evaluated by the C03 driver - Step must not throw, later peers must still be served
+    "aevents": dict(c03.HARNESSES["aevents"]),
 }
 KINDS = ["basic", "buffered", "async"]
 FAILS = ["close", "shutwr", "rst"]
@@ -36,6 +41,8 @@ SHRINK = False
 
 
 def nontrivial(ops, tags):
+    if any(o.startswith('acceptor') for o in ops):
+        return any(o.startswith('rst') or o.startswith('close') for o in ops)
     return any(o.startswith(("kill", "hskill")) for o in ops)
 
 
@@ -132,6 +139,24 @@ def gen(rng, tier):
                    "pre w=0 a=100 r=100 hsfull=1", "inject sys=send err=32", "after order=s big=0 cap=10",
                    "kill kind=%s" % kind, "after order=r big=0 cap=10", "final"]
             add("tls" if tls else "plain", ops)
+    for j in range(40 if tier == "quick" else 1500):
+        ops = ["careless", "rx %d %d" % (rng.choice([1, 2, 0]), rng.choice([7, 4096])), "acceptor 1"]
+        nxt = 2
+        for _ in range(rng.randrange(1, 5)):
+            i = nxt; nxt += 1
+            ops.append("pconnect 1 %d" % i)
+            x = rng.random()
+            if x < 0.45:
+                ops += ["rst %d" % i]                        # reset between connect and accept
+            elif x < 0.6:
+                ops += ["send %d 5" % i, "rst %d" % i]      # data, then reset, all before the accept
+            elif x < 0.75:
+                ops += ["close %d" % i]
+            else:
+                ops += ["step", "send %d 9" % i]
+            ops += ["step"] * rng.randrange(0, 3)
+        ops += ["step"] * 8
+        cases.append(("aevents", "acc%d" % j, ops))
     return cases
 
 
